@@ -256,6 +256,15 @@ func (ex *Exec) solveOne(o *Obligation, dir string, id string, timeoutS int, tho
 		res.Status, res.Solver, res.Seconds = st, solvers[0].name, time.Since(t0).Seconds()
 		return res
 	}
+	// stage 0: the string-abstracted query, when there is one, is usually decided at once
+	if abstractScript != "" && !o.Cover {
+		st0, out0, _ := runSolver(context.Background(), solvers[0], abstractScript, dir, id+"a0", 2)
+		res.Outputs["z3-new(str-abstract)"] = trimOut(out0)
+		if st0 == "unsat" {
+			res.Status, res.Solver, res.Seconds = "unsat", "z3-new(str-abstract)", time.Since(t0).Seconds()
+			return res
+		}
+	}
 	// stage 1
 	fast := 2
 	if timeoutS < fast {
